@@ -31,7 +31,7 @@ def routing_case(draw, n=(2, 6), extra_max=4, parallel=False, max_req=4):
                                        per_degree=False, own_policy=False))
     # some fibres are longer than max_length: auto-design splits them and must keep the edge weights (fibre lengths)
     for f in [e for e in topo['elements'] if e['type'] == 'Fiber']:
-        if draw(st.integers(0, 5)) == 0:
+        if draw(st.integers(0, 3)) == 0:
             f['params']['length'] = round(f['params']['length'] * draw(st.sampled_from([3.0, 5.0])), 3)
     reqs = []
     for i in range(draw(st.integers(1, max_req))):
@@ -249,7 +249,7 @@ def run_cli_path(case, ctx):
     ctx.nontrivial(len(walk) >= 3 and sorted(walk) != walk)
 
 
-CHECKS = [Check('routing', routing_case(), run, quick=1500, thorough=50000,
+CHECKS = [Check('routing', routing_case(), run, quick=2500, thorough=50000,
                 doc='validity + optimality of compute_path_dsjctn routes vs brute force'),
           Check('cli-path', cli_path_case(), run_cli_path, quick=150, thorough=4000,
                 doc='the --path option of gnpy-transmission-example resolves ROADM names in the order given')]
